@@ -42,7 +42,7 @@ class Run:
         sp = self.case["node"]
         k = sp["k"]
         sec = lambda t: t / TICKS_PER_S
-        nsrc = 2 if k == "zip" else 1
+        nsrc = 2 if k == "zip" else (3 if k == "zip3" else 1)
         self.sources = [Stream(asynchronous=True) for _ in range(nsrc)]
         s = self.sources[0]
         if k == "buffer":
@@ -62,6 +62,8 @@ class Run:
             n = s.partition(sp["n"], timeout=sec(sp["timeout"]) if sp.get("timeout") is not None else None, **kw)
         elif k == "zip":
             n = streamz.zip(self.sources[0], self.sources[1], maxsize=sp["maxsize"])
+        elif k == "zip3":
+            n = streamz.zip(self.sources[0], self.sources[1], self.sources[2], maxsize=sp["maxsize"])
         elif k == "map_async":
             run = self
 
@@ -160,6 +162,58 @@ class Run:
                             self.failed.append(eid)
                     self.loop.create_task(waiter())
             self.loop.call_soon(go_all)
+            self.loop.settle()
+        elif kind == "chain":
+            # each emit schedules the next one with call_soon when it returns: the next arrival lands between the
+            # callbacks the previous one scheduled (e.g. after a notify ran but before the woken coroutine resumed)
+            _, src, vals = act
+            eids = []
+            for _v in vals:
+                eids.append(self.nemit)
+                self.nemit += 1
+
+            def go_k(k):
+                try:
+                    fut = self.sources[src].emit(val_from_json(vals[k]))
+                except Exception:
+                    self.failed.append(eids[k])
+                    fut = None
+                if fut is not None:
+                    async def waiter():
+                        try:
+                            await fut
+                            self.done.append(eids[k])
+                        except Exception:
+                            self.failed.append(eids[k])
+                    self.loop.create_task(waiter())
+                if k + 1 < len(vals):
+                    self.loop.call_soon(go_k, k + 1)
+            self.loop.call_soon(go_k, 0)
+            self.loop.settle()
+        elif kind == "seq":
+            # several emits in CONSECUTIVE loop callbacks: anything the first schedules with add_callback runs
+            # after the later emits have already been made
+            _, src, vals = act
+            import asyncio
+            for vj in vals:
+                eid = self.nemit
+                self.nemit += 1
+
+                def go1(vj=vj, eid=eid):
+                    try:
+                        fut = self.sources[src].emit(val_from_json(vj))
+                    except Exception:
+                        self.failed.append(eid)
+                        return
+
+                    async def waiter():
+                        try:
+                            await fut
+                            self.done.append(eid)
+                        except Exception:
+                            self.failed.append(eid)
+                    self.loop.create_task(waiter())
+                self.loop.call_soon(go1)
             self.loop.settle()
         elif kind == "ack":
             if self.outstanding:
